@@ -287,6 +287,15 @@ C05Checks(e) ==
                  ELSE 0)
             + Chk("C05.eightChar.sect1", << k, q.ec1 >>, q.ec1 = << GanZhiName(yIns), GanZhiName(mIns), GanZhiName(dEarly), GanZhiName(hIdx) >>)
             + Chk("C05.eightChar.sect2", << k, q.ec2 >>, q.ec2 = << GanZhiName(yIns), GanZhiName(mIns), GanZhiName(dLate), GanZhiName(hIdx) >>)
+            + Chk("C05.eightChar.deprecated-array", << k, q.bz >>,
+                  q.bz = << GanZhiName(yIns), GanZhiName(mIns), GanZhiName(dLate), GanZhiName(hIdx) >>)
+            \* the hour objects of the day, whatever hour the listing object itself was built for:
+            \* slot 1 is 00:00, slot i > 1 is hour 2i - 3
+            + (IF Has(q, "times")
+                 THEN Chk("C05.hours-of-the-day", << k, q.times >>,
+                          Len(q.times) = 13 /\ \A i \in 1..13 :
+                            q.times[i] = GZ2(HourIdx(J, IF i = 1 THEN 0 ELSE (2 * i - 3) * 3600)))
+                 ELSE 0)
             + Chk("C05.eightChar.printed", << k, q.ecs >>,
                   q.ecs = << GanZhiName(yIns) \o " " \o GanZhiName(mIns) \o " " \o GanZhiName(dEarly) \o " " \o GanZhiName(hIdx),
                              GanZhiName(yIns) \o " " \o GanZhiName(mIns) \o " " \o GanZhiName(dLate) \o " " \o GanZhiName(hIdx) >>))
@@ -314,6 +323,7 @@ C02Checks(e) ==
        + (LET Y == InYear(T, y)
               TN == T4(e.tn)
           IN Chk("C02.leap.accessor-matches-table", << y, e.leap, e.inyear >>, e.leap = LeapOf(Y) /\ e.inyear = Len(Y))
+             + (IF Has(e, "t3") THEN Chk("C02.table.same-when-recomputed", y, e.t3 = e.t) ELSE 0)
              + Chk("C02.table.tail-agrees-with-next-year", << y, [i \in 12..15 |-> << MY(T[i]), MM(T[i]), MJ(T[i]) >>] >>,
                    \A i \in 1..Len(T), j \in 1..Len(TN) : MJ(T[i]) = MJ(TN[j]) => T[i] = TN[j]))
        \* every month begins on the UTC+8 civil day that contains the true new moon
